@@ -57,7 +57,13 @@ func c01Specs(tier string, seed int64) []WorkloadSpec {
 		for _, b := range []string{"fir", "matrixtranspose", "relu", "vectoradd"} {
 			specs = append(specs, WorkloadSpec{Bench: b, Params: DefaultParams(b), Arch: BenchArchs(b)[0], Timing: true, GPUType: "r9nano", GPUs: []int{1}, Seed: seed})
 		}
+		// relu splits Length / #GPUs work-items per queue: a length the GPU count does not divide (relu_split_covers)
+		specs = append(specs, WorkloadSpec{Bench: "relu", Params: P{"length": 101}, Arch: "gcn3", GPUs: []int{1, 2}, Seed: seed})
 		return specs
+	}
+	for _, a := range []string{"gcn3", "cdna3"} {
+		specs = append(specs, WorkloadSpec{Bench: "relu", Params: P{"length": 101}, Arch: a, GPUs: []int{1, 2}, Seed: seed},
+			WorkloadSpec{Bench: "relu", Params: P{"length": 102}, Arch: a, GPUs: []int{1, 2, 3, 4}, Seed: seed})
 	}
 	// thorough: emulation, every benchmark × admissible sizes × arch × GPU sets
 	for _, b := range BenchNames() {
